@@ -100,8 +100,19 @@ func ConsumeByHTTP(logger *xlog.Logger, path string, addr string, w http.Respons
 
 	cid = stream.StartConsume(c, media.FLVPacket, "net=http-flv,"+addr)
 
+	// 客户端断开时也要结束: while nothing is published no write fails, so a client
+	// that went away is only noticed by watching its connection; otherwise its
+	// consumer and this handler stay until the stream ends
+	var gone <-chan bool
+	if cn, ok := w.(http.CloseNotifier); ok {
+		gone = cn.CloseNotify()
+	}
+
 	// 等待关闭
 	select {
 	case <-c.closeCh:
+	case <-gone:
+		stream.StopConsume(cid)
+		<-c.closeCh // the delivery goroutine no longer writes to w
 	}
 }
